@@ -192,7 +192,10 @@ func namesTables(c *Ctx, required []string, exact bool, withDefaults bool) {
 			case len(trueLits) == 0:
 				verbatim = name
 			case len(trueLits) == 1:
-				reserved[trueLits[0]] = name
+				// on the path where the written name equals the literal, an unchanged name is that literal
+				if name != "ƥ"+suffix {
+					reserved[trueLits[0]] = name
+				}
 			}
 			more, overflow := choices.Advance()
 			if overflow {
